@@ -371,6 +371,36 @@ def _siblings(r, p):
             r.ok("C12.siblings", gfi.key + ":membership", "group settings applied iff the rule is a member of the group")
         else:
             r.fail("C12.siblings", gfi.key + ":membership", "group settings applied under %s (expected exactly `%s in self.groups`)" % (tests, v), gfi.loc())
+    # a configured value is stored as given: every branch of a reader either assigns the configuration look-up (severity:
+    # through the by-name resolution) or hands it to a helper that assigns it on every path.  A helper that assigns only under
+    # a test of the value silently drops configured values - the run then differs from one configured with that value.
+    for k in keys:
+        fi = p.function(k)
+        for n in walk_function(fi.node):
+            if not (isinstance(n, ast.Expr) and isinstance(n.value, ast.Call) and isinstance(n.value.func, ast.Name)):
+                continue
+            c = n.value
+            cfg_args = [i for i, a in enumerate(c.args) if "dConfig" in norm(a)]
+            if not cfg_args:
+                continue
+            ent = p.resolve_expr(fi.module, c.func)
+            if not (ent and ent[0] == "func"):
+                r.fail("C12.siblings", "%s:%s" % (k, norm(c)[:50]), "a configured value is handed to `%s`, which cannot be resolved" % norm(c.func), fi.loc(n))
+                continue
+            h = ent[1]
+            pn = h.params[cfg_args[0]] if cfg_args[0] < len(h.params) else None
+            hf = Facts(h.node)
+            stores = [x for x in walk_function(h.node) if isinstance(x, ast.Assign) and any(isinstance(t, ast.Attribute) or (isinstance(t, ast.Subscript) and "__dict__" in norm(t)) for t in x.targets) and pn and any(isinstance(y, ast.Name) and y.id == pn for y in ast.walk(x.value))]
+            kk = "%s:%s:stores-value" % (k, h.name)
+            if not stores:
+                r.fail("C12.siblings", kk, "%s receives the configured value but never stores it on the rule" % h.name, h.loc())
+                continue
+            cond = [t for st in stores for t, pol in hf.conds_at(st) if pn in t]
+            raises = any(isinstance(x, ast.Raise) for x in walk_function(h.node))
+            if cond and not raises:
+                r.fail("C12.siblings", kk, "%s stores the configured value only under `%s` and otherwise keeps the old one without an error: some configured values are silently ignored, so the run differs from one configured with that value" % (h.name, cond[0][:60]), h.loc(stores[0]))
+            else:
+                r.ok("C12.siblings", kk, "stores the configured value on every path (or rejects it with an error)")
     guards = {k: v["guard"] for k, v in shapes.items()}
     base = guards[keys[2]]
     for k in keys:
@@ -529,6 +559,9 @@ def _normalised_use(r, p):
 
 _R = "vsg/rule.py"
 VARIANTS = [
+    Variant("C12", "configured phase stored only when it is one of the first six phases", "fire",
+            [("vsg/rule.py", "            if sAttributeName == \"severity\":\n                self.severity = oConfig.severity_list.get_severity_named(oConfig.dConfig[\"rule\"][self.get_unique_id()][\"severity\"])\n", "            if sAttributeName == \"severity\":\n                self.severity = oConfig.severity_list.get_severity_named(oConfig.dConfig[\"rule\"][self.get_unique_id()][\"severity\"])\n            elif sAttributeName == \"phase\":\n                set_phase(self, oConfig.dConfig[\"rule\"][self.get_unique_id()][\"phase\"])\n"),
+             ("vsg/rule.py", "def get_rule_identifier(self):", "def set_phase(self, iPhase):\n    if iPhase in range(1, 7):\n        self.phase = iPhase\n\n\ndef get_rule_identifier(self):")], rule="C12.siblings", key="stores-value"),
     Variant("C12", "'yes'/'no' option tested for truthiness", "fire",
             [("vsg/rules/multiline_simple_structure.py", "            if rules_utils.is_single_line(oToi) and self.ignore_single_line == \"yes\":", "            if rules_utils.is_single_line(oToi) and self.ignore_single_line:")], rule="C12.effective"),
     Variant("C12", "region selection reads the raw option before _analyze normalises it", "fire",
